@@ -27,6 +27,12 @@ CHECKS = {
  'C10': ('property-based differential testing against a reference evaluator with its own backtracking regular-expression matcher over generated pattern ASTs; exhaustive box for length(); known findings K4/K5 attributed by quirk model or input class',
          'length() is swept over every kind of argument x n; count()/value() get generated argument queries selecting 0, 1 or many nodes and their results are used inside comparisons, negations and conjunctions; match()/search() get generated pattern ASTs (alternation, anchors, classes, quantifiers, \\p{..}) with subjects derived from the pattern, delivered as literals and through document nodes, plus invalid and non-string patterns/subjects. The oracle never uses the regex crate. Exploration only (exhaustive inside the length box).',
          'Trusted: the harness matcher and pattern parser (harness/src/regexo.rs; render/parse round-trip checked on every case), the reference evaluator; dialect and alphabet restrictions stated in the evidence assumptions; a 400k-step budget on the naive matcher (exceeded cases are counted as not judged).', 'DESIGN.md section 4 C10'),
+ 'C06': ('grammar-based property testing: sentences derived from the RFC 9535 ABNF by two independent generators, rendered over all spelling freedoms, cross-checked by an independent recogniser; accept/no-Err oracle',
+         'Random ASTs covering the whole grammar are rendered with random blanks at every S position, both quote styles, every escape form, dot/bracket notation, all number forms and nesting up to 32, and must be accepted by parse_json_path and evaluate without Err on three documents; the recogniser must agree that each sentence is valid (else the harness, not the library, is reported). Mutants that the recogniser still classifies valid are fed in too. Exploration only.',
+         'Trusted: validity by construction + the recogniser (self-tested on RFC examples). Bounds: function nesting <= 3, bracket nesting <= 32.', 'DESIGN.md section 4 C06'),
+ 'C07': ('mutation-based property testing against an independent RFC 9535 recogniser (differential accept/reject oracle): token-level and character-level near misses, AST-level ill-typed calls, a targeted bounded box, token soup',
+         'Valid sentences are mutated by 1-3 token or character edits, ill-typed/mis-aritied function calls are built on the AST and embedded in valid queries, and a targeted box places every forbidden integer form, blank, string form and filter form into every position that takes one; whatever the recogniser classifies Invalid must be rejected by parse_json_path and by JsonPath::query. Strings the recogniser does not judge (extension function names, literals beyond I-JSON, blanks inside singular-query brackets) are counted and skipped. Exploration only (the targeted box is enumerated completely).',
+         'Trusted: the recogniser (hand-written from RFC 9535 Appendix A, 2.1, 2.4; self-tested; cross-validated against the C06 generators on every run of C06).', 'DESIGN.md section 4 C07'),
 }
 NOT_YET = 'check under construction in this session (designed in DESIGN.md section 4); not yet registered'
 
